@@ -254,11 +254,11 @@ def run(ctx: lib.Ctx) -> None:
                  sample={'type': V.type_src(t), 'a': V.value_src(a), 'b': V.value_src(b), 'COMPARE': got})
         g = got if isinstance(got, int) else 99
         wt = not cls_empty_ep(t, a, b)      # values outside has_type: only the model-vs-code comparison applies
-        cases.append((f'({V.tables_coq([a, b])}, {V.type_coq(t)}, {V.value_coq(a)}, {V.value_coq(b)})',
-                      f'({cbool(wt)}, {cZ(g)}, {cZ(want if wt else 0)})'))
+        cases.append((f'({V.checksums_coq([a, b])}, {V.tables_coq([a, b])}, {V.type_coq(t)}, {V.value_coq(a)}, {V.value_coq(b)})',
+                      f'({cbool(wt)}, {cZ(g)}, {cZ(want if wt else 0)}, true)'))
         meta.append((t, a, b, got, want, code))
     bad = V.par_mismatches(ctx, 'compare', IMPORTS, 'compare_case', 'compare_case_eqb',
-                           'text_tables * cty * val * val', 'bool * Z * Z', cases, shard=500)
+                           'list (bytes * bytes) * text_tables * cty * val * val', 'bool * Z * Z * bool', cases, shard=500)
 
     reported = 0
     # (B) on every case
@@ -294,7 +294,7 @@ def run(ctx: lib.Ctx) -> None:
             i = rest[0]
             t, a, b, got, want, code = meta[i]
             ctx.violation('implementation no longer corresponds to the model the theorems are about',
-                          {'correspondence': 'C03/COMPARE vs Michelson.Compare.py_compare (and spec_cmp vs cmp)',
+                          {'correspondence': 'C03/COMPARE vs Michelson.Compare.py_compare (and spec_cmp vs cmp, concrete base58 texts vs real strings)',
                            'type': V.type_src(t), 'a': V.value_src(a), 'b': V.value_src(b), 'observed': got, 'python_spec': want,
                            'model': ctx.coq_eval(IMPORTS, f'compare_case {cases[i][0]}'), 'disagreements': len(rest)}, found=False)
             reported += 1
